@@ -623,7 +623,7 @@ func (g *c35G) genRTMP() *c35Input {
 			hasV, hasA := tracks != "a", tracks != "v"
 			if hasV && !g.odd(12) {
 				sps, pps := c35SPS, c35PPS
-				if g.odd(8) {
+				if g.odd(5) {
 					sps = g.pickBytes([]byte{0x67}, []byte{}, []byte{0x67, 0x42}, bytes.Repeat([]byte{0x67}, 300), []byte{0x67, 0x64, 0x00, 0x0a, 0xff, 0xff, 0xff, 0xff})
 					if g.chance(3) {
 						sps, pps = c35SPS, []byte{}
